@@ -333,6 +333,45 @@ inline Result exec_c19(const Plan& plan)
             fail("get-by-tag", "get_by_tag<" + tagname(e.tag) + "> differs from the named accessor");
             return res;
         }
+        if(e.fetch && e.ra.target == T_FIELD)
+        {
+            // sets: every choice through its named accessor and by tag, read and toggled
+            Req rc = e.ra;
+            rc.p = p;
+            rc.n = (std::size_t)N;
+            rc.sub = SET_CHOICES;
+            Res tc;
+            Outcome oc = call_driver(drv, rc, tc);
+            if(!tc.unsupported)
+            {
+                sim::stats().count("c19.set_choice_probes");
+                if(oc.kind != Out::DONE)
+                {
+                    fail("set-choices", "choice accessors of set " + tagname(e.tag) + " ended with " + sim::out_name(oc.kind));
+                    return res;
+                }
+                const u64 raw = tc.bits;
+                const std::size_t nch = tc.events.size() / 4;
+                for(std::size_t k = 0; k < nch; k++)
+                {
+                    const u64 bit = (u64)tc.events[2 * k].tag;
+                    const u64 want = (raw >> bit) & 1;
+                    if(tc.events[2 * k].bits != want || tc.events[2 * k + 1].bits != want)
+                    {
+                        fail("set-choices", "choice at bit " + std::to_string(bit) + " of set " + tagname(e.tag) + ": named getter " + std::to_string(tc.events[2 * k].bits) + ", get_by_tag " + std::to_string(tc.events[2 * k + 1].bits) + ", the underlying value 0x" + std::to_string(raw) + " has " + std::to_string(want));
+                        return res;
+                    }
+                    const u64 toggled = raw ^ (1ULL << bit);
+                    const Event& n1 = tc.events[2 * nch + 2 * k];
+                    const Event& n2 = tc.events[2 * nch + 2 * k + 1];
+                    if(n1.bits != n2.bits || n1.bits != toggled)
+                    {
+                        fail("set-choices", "toggling the choice at bit " + std::to_string(bit) + " of set " + tagname(e.tag) + " gives 0x" + std::to_string(n1.bits) + " through the named setter and 0x" + std::to_string(n2.bits) + " through set_by_tag; exactly that bit of 0x" + std::to_string(raw) + " must change");
+                        return res;
+                    }
+                }
+            }
+        }
         if(e.fetch)
         {
             // set a different value through both routes on two copies of the medium
